@@ -96,6 +96,11 @@ ENC_HIST = {'kind': 'mc', 'name': 'enchist', 'module': 'MC_Enc', 'comp': 'enc', 
 ENC_PATHS = {'kind': 'mc', 'name': 'encpaths', 'module': 'MC_Enc', 'comp': 'enc', 'trace': 'TraceEnc',
              'cfg': {'quick': 'MC_EncPaths_quick.cfg', 'thorough': 'MC_EncPaths_thorough.cfg'},
              'invariants': ['InvC09', 'InvC10']}
+# every history of 3 (4) operations over a richer alphabet: calls that differ in frame sizes, padding, payload length (fits /
+# needs segmentation) and message type follow each other in every order (state kept between calls, round6c-2)
+ENC_PAIRS = {'kind': 'mc', 'name': 'encpairs', 'module': 'MC_Enc', 'comp': 'enc', 'trace': 'TraceEnc',
+             'cfg': {'quick': 'MC_EncPairs_quick.cfg', 'thorough': 'MC_EncPairs_thorough.cfg'},
+             'invariants': ['InvC07', 'InvC08', 'InvC09', 'InvC10']}
 ENC_RANDOM = {'kind': 'gen', 'name': 'encrandom', 'gen': enc_random, 'comp': 'enc', 'trace': 'TraceEnc'}
 ENC_WRAP = {'kind': 'gen', 'name': 'encwrap', 'gen': enc_wrap, 'comp': 'enc', 'trace': 'TraceEnc'}
 ENC_HRANDOM = {'kind': 'gen', 'name': 'enchrandom', 'gen': enc_hist_random, 'comp': 'enc', 'trace': 'TraceEnc'}
@@ -255,7 +260,10 @@ MEMCHECK_RUN = {'kind': 'gen', 'name': 'memcheck', 'gen': memcheck_workload, 'co
 def val_random(tier, seed, path):
     n = 150 if tier == 'quick' else 3000
     eps = list(val_gen.gen(seed + 31, n, 'p', 'packet')) + list(val_gen.gen(seed + 32, n // 3, 'y', 'payload')) + \
-        list(val_gen.gen(seed + 33, n // 3, 't', 'tecmp'))
+        list(val_gen.gen(seed + 33, n // 3, 't', 'tecmp')) + \
+        list(val_gen.bit_sweep(seed + 34, 4 if tier == 'quick' else 40, 'e', 'packet')) + \
+        list(val_gen.bit_sweep(seed + 35, 2 if tier == 'quick' else 10, 'f', 'payload')) + \
+        list(val_gen.bit_sweep(seed + 36, 2 if tier == 'quick' else 10, 'g', 'tecmp'))
     return val_gen.write(path, eps)
 
 
@@ -306,7 +314,8 @@ def dec_streams(tier, seed, path):
 def dec_faults(tier, seed, path):
     n = 60 if tier == 'quick' else 3000
     return dec_gen.write(path, list(dec_gen.streams(seed + 7, n, 'f', faults=True, big=False)) +
-                         list(dec_gen.encoder_streams(seed + 8, n, 'g', faults=True)))
+                         list(dec_gen.encoder_streams(seed + 8, n, 'g', faults=True)) +
+                         list(dec_gen.large_after_fault(seed))[:(4 if tier == 'thorough' else 2)])
 
 
 def dec_anyhist(tier, seed, path):
@@ -391,27 +400,29 @@ SUITE_RULE = (" Also: the calls of the repository's own gtest suite on this comp
               "(ld --wrap) and judged by the same trace specification; likewise the flows of example/main.cpp where it uses the component.")
 
 PROPS = {
-    'C01': {'level': 'model_checking', 'stages': [ENC_BATCH, ENC_WRAP, ENC_RANDOM, SUITE_ENC, EXAMPLE_ENC], 'nontrivial_case': nt_enc_any,
+    'C01': {'level': 'model_checking', 'stages': [ENC_BATCH, ENC_WRAP, ENC_RANDOM, ENC_HRANDOM, SUITE_ENC, EXAMPLE_ENC], 'nontrivial_case': nt_enc_any,
             'rule': 'MC_Enc/EncBatch: every batch of 0..MaxPk packets over LenSet x MtSet x every context of MaxSet x MinSet, '
                     'encoder spec composed with decoder spec (InvC01), each enumerated case replayed on the real encoder and '
                     'decoder and judged by TraceEnc (RoundTripOK on logged input and decoded packets); plus seeded random '
                     'batches of all eight payload kinds, payloads up to 65535 bytes. Non-trivial = distinct episodes with a '
                     'non-empty batch.',
             'assumptions': COMMON_ASSUMPTIONS},
-    'C07': {'level': 'model_checking', 'stages': [ENC_BATCH, ENC_RANDOM, SUITE_ENC, EXAMPLE_ENC], 'nontrivial_case': nt_enc_any,
+    'C07': {'level': 'model_checking', 'stages': [ENC_BATCH, ENC_RANDOM, ENC_HIST, ENC_PAIRS, ENC_HRANDOM, SUITE_ENC, EXAMPLE_ENC], 'nontrivial_case': nt_enc_any,
             'rule': 'as C01; monitor FramesWellFormed (independent frame walker of spec/Frames.tla) on the logged frames. '
+                    'Also on encoders with a history (MC_Enc/EncHist: every sequence of operations; seeded random histories whose '
+                    'calls change the frame sizes, message types and ids between calls). '
                     'Non-trivial = distinct episodes with a non-empty batch; counters give how many calls needed segmentation, aggregation, padding.',
             'assumptions': COMMON_ASSUMPTIONS},
-    'C08': {'level': 'model_checking', 'stages': [ENC_BATCH, ENC_WRAP, ENC_RANDOM, SUITE_ENC], 'nontrivial_case': nt_enc_segmented,
-            'rule': 'as C01 with lengths on both sides of every fit/no-fit boundary; monitor SegRules on the logged frames. '
+    'C08': {'level': 'model_checking', 'stages': [ENC_BATCH, ENC_WRAP, ENC_RANDOM, ENC_HIST, ENC_PAIRS, ENC_HRANDOM, SUITE_ENC], 'nontrivial_case': nt_enc_segmented,
+            'rule': 'as C01 with lengths on both sides of every fit/no-fit boundary; monitor SegRules on the logged frames; also on encoders with a history (as C07). '
                     'Non-trivial = distinct episodes in which at least one packet needed segmentation.',
             'assumptions': COMMON_ASSUMPTIONS},
-    'C09': {'level': 'model_checking', 'stages': [ENC_HIST, ENC_PATHS, ENC_WRAP, ENC_HRANDOM, SUITE_ENC], 'nontrivial_case': nt_enc_hist,
+    'C09': {'level': 'model_checking', 'stages': [ENC_HIST, ENC_PATHS, ENC_PAIRS, ENC_WRAP, ENC_HRANDOM, SUITE_ENC], 'nontrivial_case': nt_enc_hist,
             'rule': 'MC_Enc/EncHist: every sequence of up to MaxOps operations {setDeviceId, setStreamId, restart, encode} '
                     '(edge dump: one path per transition), a 70000-frame history that wraps the counter, seeded random '
                     'histories; monitor CounterRule. Non-trivial = distinct histories of at least two operations after init containing an encode call (wrap_calls counts wrap crossings).',
             'assumptions': COMMON_ASSUMPTIONS},
-    'C10': {'level': 'model_checking', 'stages': [ENC_HIST, ENC_PATHS, ENC_WRAP, ENC_HRANDOM, SUITE_ENC], 'nontrivial_case': nt_enc_later_segmented,
+    'C10': {'level': 'model_checking', 'stages': [ENC_HIST, ENC_PATHS, ENC_PAIRS, ENC_WRAP, ENC_HRANDOM, SUITE_ENC], 'nontrivial_case': nt_enc_later_segmented,
             'rule': 'as C09; every encode event also logs the frames of a fresh encoder with the same ids; monitor '
                     'SameUpToShift. Non-trivial = distinct histories whose second or later encode call needed segmentation.',
             'assumptions': COMMON_ASSUMPTIONS},
